@@ -1,6 +1,7 @@
 import Taskpool.Inv.SealInv
 import Taskpool.Inv.FinSWalk
 import Taskpool.Inv.EndWalk2
+import Taskpool.Inv.EmptiedWalk
 /-! The two further invariants of sealed pools — `FinSOK` (a spawner that was never cancelled ends only when its work is
 done, `Inv/FinS.lean`) and `EndFiled` (a task inside its end callback stays filed as ended, `Inv/EndOK.lean`) — lifted to
 every pool of every world reachable without `unlock()` and without assignment to `pool_size`, on top of `SealedC`. -/
@@ -67,7 +68,7 @@ theorem World.all_next_local {I : Cfg → Pool → Prop} (w : World) (x : WOp) (
     subst hp
     exact hdrain c q (hstep.inv i c q hc hq)
 
-def SealedC2 (c : Cfg) (p : Pool) : Prop := SealedC c p ∧ Pool.FinSOK p ∧ Pool.EndFiled p
+def SealedC2 (c : Cfg) (p : Pool) : Prop := SealedC c p ∧ Pool.FinSOK p ∧ Pool.EndFiled p ∧ Pool.EmptiedOK p
 
 theorem World.sealed2_run (base : Nat) (h : History) (hh : ∀ x ∈ h, x.sealOk = true) :
     ((World.init base).run h).All SealedC2 := by
@@ -87,8 +88,8 @@ theorem World.sealed2_run (base : Nat) (h : History) (hh : ∀ x ∈ h, x.sealOk
       refine World.all_next_local _ x hp ?_ ?_ ?_ ?_
       · intro size simple name e c hs
         subst e
-        exact ⟨sealedC_init c simple hs hxo, Pool.finS_init _ _, Pool.endFiled_init _ _⟩
-      · intro i orders op e c p _ _ ⟨hs, hf, he⟩
+        exact ⟨sealedC_init c simple hs hxo, Pool.finS_init _ _, Pool.endFiled_init _ _, Pool.emptied_init _ _⟩
+      · intro i orders op e c p _ _ ⟨hs, hf, he, hm⟩
         subst e
         have hso : op.sealOk = true := hxo
         have hg1 : Good c.size0 false true ({ p with orders := orders } : Pool) := (Pool.tame_setOrders p orders).good hs.1
@@ -99,8 +100,9 @@ theorem World.sealed2_run (base : Nat) (h : History) (hh : ∀ x ∈ h, x.sealOk
           simp only [Op.sealOk, Bool.and_eq_true] at hso; exact hso.1
         exact ⟨sealedC_op c p orders op hso hs,
           Pool.finS_applyOp _ op hno hg1.lax hw1 hs1 (Pool.finS_orders p orders hf),
-          Pool.endFiled_applyOp _ op hg1.lax hs1 (Pool.endFiled_orders p orders he)⟩
-      · intro k orders e i r c p _ hpp ⟨hs, hf, he⟩
+          Pool.endFiled_applyOp _ op hg1.lax hs1 (Pool.endFiled_orders p orders he),
+          Pool.emptied_applyOp _ op hno hg1.lax hw1 hs1 (Pool.emptied_orders p orders hm)⟩
+      · intro k orders e i r c p _ hpp ⟨hs, hf, he, hm⟩
         have hg1 : Good c.size0 false true ({ p with orders := orders } : Pool) := (Pool.tame_setOrders p orders).good hs.1
         have hw1 : Pool.Want ({ p with orders := orders } : Pool) :=
           ⟨hs.2.1.tq, hs.2.1.tw, hs.2.1.rs, hs.2.1.pn, hs.2.1.pw, hs.2.1.pe, hs.2.1.mn, hs.2.1.mw, hs.2.1.me, hs.2.1.od, hs.2.1.ce⟩
@@ -109,9 +111,10 @@ theorem World.sealed2_run (base : Nat) (h : History) (hh : ∀ x ∈ h, x.sealOk
         have h1 := fun a re => World.spawnersWaited_stage1 base pre i p hpp orders a re
         exact ⟨sealedC_run c p orders r hs h0 h1,
           Pool.finS_runRef _ r hg1.lax hw1 hs1 (Pool.finS_orders p orders hf) (fun g G hG => h0 g G hG) h1,
-          Pool.endFiled_runRef _ r hg1.lax hw1 hs1 (Pool.endFiled_orders p orders he)⟩
-      · intro c p ⟨hs, hf, he⟩
-        exact ⟨sealedC_drain c p hs, Pool.finS_drain p hf, Pool.endFiled_drain p he⟩
+          Pool.endFiled_runRef _ r hg1.lax hw1 hs1 (Pool.endFiled_orders p orders he),
+          Pool.emptied_runRef _ r hg1.lax hw1 hs1 (Pool.emptied_orders p orders hm)⟩
+      · intro c p ⟨hs, hf, he, hm⟩
+        exact ⟨sealedC_drain c p hs, Pool.finS_drain p hf, Pool.endFiled_drain p he, Pool.emptied_drain p hm⟩
   simpa using key h [] (World.all_init SealedC2 base) hh
 
 end Taskpool
